@@ -288,6 +288,10 @@ def observe_list(job):
         abs_paths = [os.path.join(d, p) for p in real]
         for k, case in enumerate(job["cases"]):
             write_layout(abs_paths[k], case, rnd, shift=k, same=bool(job.get("same")))
+        if job["here"] != "dot" and job["id"] % 2 == 0:
+            # a decoy: the same relative path exists below the working directory too (another feature file); a relative
+            # entry of a list file means the file next to the LIST FILE
+            write_layout(os.path.join(d, "feat", "a.feature"), job["cases"][1], random.Random(str(job["seed"]) + "decoy"), shift=3)
         if not os.path.isdir(os.path.dirname(os.path.join(d, listfile)) or d):
             os.makedirs(os.path.dirname(os.path.join(d, listfile)))
         with open(listfile, "w") as fh:
